@@ -46,6 +46,12 @@ def bodies(rng, tier):
     out.append(("(n acc)", "(if (<= n 0) acc (if (f (- n 1) acc) (f (- n 2) (+ acc 1)) 0))", "(f %d 0)"))
     out.append(("(n acc)", "(if (<= n 0) acc (and t (f (- n 1) (+ acc 1))))", "(f %d 0)"))
     out.append(("(n acc)", "(if (<= n 0) acc (progn (f 0 0) (f (- n 1) (+ acc 2))))", "(f %d 0)"))
+    # body-less cond clauses whose test is the self-call: only the LAST clause is a tail position
+    out.append(("(n acc)", "(cond ((<= n 0) nil) ((f (- n 1) acc)) (t (list n acc)))", "(f %d 0)"))
+    out.append(("(n acc)", "(cond ((<= n 0) acc) ((f (- n 1) (+ acc 1))))", "(f %d 0)"))
+    out.append(("(n acc)", "(cond ((<= n 0) nil) ((progn (tick n) (f (- n 1) acc))) ((tick 99) 'fell-through))", "(f %d 0)"))
+    out.append(("(n acc)", "(if (<= n 0) nil (or (f (- n 1) acc) (list n)))", "(f %d 0)"))
+    out.append(("(n acc)", "(if (<= n 0) acc (let ((r (f (- n 1) acc))) r))", "(f %d 0)"))
     # permuting / swapping parameters
     out.append(("(n a b)", "(if (<= n 0) (list a b) (f (- n 1) b a))", "(f %d 'p 'q)"))
     out.append(("(n a b)", "(if (<= n 0) (list a b) (f (- n 1) (cons n b) a))", "(f %d nil nil)"))
@@ -107,7 +113,8 @@ def oracle(lines, impl, model, meta):
     big = 100000 if tier == "quick" else 1000000
     req = []
     for params, body, call in meta.get("bodies", []):
-        if "(+ 1 (f" in body or "(and t (f" in body or "(if (f " in body or "((lambda (x) x) (f" in body or "cons n" in body or "(car r)" in body or "(f 0 0)" in body:
+        if "(+ 1 (f" in body or "(and t (f" in body or "(if (f " in body or "((lambda (x) x) (f" in body or "cons n" in body or "(car r)" in body or "(f 0 0)" in body \
+           or "((f (- n 1)" in body or "(or (f" in body or "(let ((r (f" in body or "(progn (tick n) (f (- n 1) acc)))" in body:
             continue
         pb = body.replace("(if (<= n 0)", "(progn (probe) (if (<= n 0)", 1) + ")" if body.startswith("(if (<= n 0)") else None
         if pb is None: continue
